@@ -66,6 +66,7 @@ type VC struct {
 	lemmaDone     map[string]bool
 	lemmaName     string
 	kindCtr       int
+	didHavocAll   bool
 	ifaceConcrete map[string]ifaceInfo
 	qf            int // >0: quantifier-free candidate search with this length bound
 	notes         []string
